@@ -554,6 +554,11 @@ func (env *Env) evalCall(x *ast.CallExpr) Val {
 				return Val{T: types.Typ[types.Int], L: []string{app("strlen", v.L[0])}}
 			case *types.Map:
 				return Val{T: types.Typ[types.Int], L: []string{fc.mapLen(env.st, v)}}
+			case *types.Chan:
+				if id.Name == "cap" {
+					fc.declareFunOnce("chancap", "((_ BitVec 64)) (_ BitVec 64)")
+					return Val{T: types.Typ[types.Int], L: []string{app("chancap", v.L[0])}}
+				}
 			}
 			userErr("len of %s", v.T)
 		case "old":
